@@ -18,6 +18,7 @@ import sys
 import tempfile
 import contextlib
 
+from harness.common import Sym
 from harness import common, gendoc, runmodel
 
 PRELUDE = gendoc.PRELUDE + '''
@@ -157,9 +158,16 @@ def make_case(bi, pos, shape):
     return dict(name=name, doc='\n'.join(lines), fail_line=len(before) + rel, exc=exc, kind=kind, pos=pos, shape=shape)
 
 
-def render_checks(c, ex, lineno):
+def render_checks(c, ex, lineno, reports=None):
     """repr_failure for verbosity-independent rendering + failed_lineno"""
     problems = []
+    if reports is not None:
+        try:
+            rr = runmodel.report_request(ex)
+            if rr is not None:
+                reports.append(rr)
+        except Exception as e:
+            problems.append('repr_failure() raised %s: %s' % (type(e).__name__, str(e)[:120]))
     try:
         off = ex.failed_line_offset()
         fl = ex.failed_lineno()
@@ -190,8 +198,10 @@ def _worker(cases):
     from xdoctest import doctest_example
     out = []
     res = runmodel.run_both_many([dict(doc=c['doc'], prelude=PRELUDE) for c in cases])
+    all_reports = []
     for c, (impl, model, df, ex0) in zip(cases, res):
         problems = []
+        reports = []
         if impl['end'] != 'summary':
             problems.append('run(on_error=return) raised instead of returning a summary: %s' % impl['end'])
         elif not impl['failed'] or impl['passed']:
@@ -215,7 +225,9 @@ def _worker(cases):
             if not s['failed']:
                 problems.append('verbose=%d: not marked failed' % verbose)
                 continue
-            problems += ['verbose=%d: %s' % (verbose, p) for p in render_checks(c, ex, 17)]
+            if verbose == 2:
+                ex.config['offset_linenos'] = True      # numbers relative to the file in the part breakdown
+            problems += ['verbose=%d: %s' % (verbose, p) for p in render_checks(c, ex, 17, reports if verbose in (0, 2) else None)]
         # on_error='raise': the recorded exception is what propagates
         ex = doctest_example.DocTest(docsrc=c['doc'], lineno=1)
         ex.global_namespace['TRACE'] = []
@@ -231,8 +243,21 @@ def _worker(cases):
         mo = None
         if not df and impl['end'] == 'summary' and impl['failed']:
             pass
-        out.append((impl, model, df, sorted(set(problems))))
-    return out
+        all_reports.append(reports)
+        impl['n_report_heads'] = len(reports)
+        out.append([impl, model, df, sorted(set(problems))])
+    # the head of the failure report (reason, location lines, part breakdown) against the model, line for line
+    flat = [rr for reports in all_reports for rr in reports]
+    answers = common.model_batch([rr[0] for rr in flat]) if flat else []
+    pos = 0
+    for o, reports in zip(out, all_reports):
+        for (req, head) in reports:
+            a = answers[pos]
+            pos += 1
+            m = a[1] if isinstance(a, list) and a and a[0] == Sym('some') else None
+            if m != head:
+                o[2] = list(o[2]) + [('repr_failure_head', repr(head)[:1500], repr(m)[:1500])]
+    return [tuple(o) for o in out]
 
 
 MODULE_TMPL = '''
@@ -340,6 +365,7 @@ def run(ctx):
         ctx.count('kind:' + c['name'])
         ctx.count('pos:' + c['pos'])
         ctx.count('shape:' + c['shape'])
+        ctx.count('report_heads_vs_model', impl.get('n_report_heads', 0))
         if problems and len([v for v in ctx.violations if v['kind'] == 'failure-handling']) < 6:
             ctx.violation('failure-handling', {'what': '; '.join(problems)[:1500], 'doctest': c['doc'], 'case': c, 'impl': impl,
                           'theorem_or_correspondence': 'C09 fault matrix on DocTest.run / repr_failure'}, True)
